@@ -31,6 +31,9 @@ def check(prog, ctx):
     ctx.sub('rot', rot, prog, ctx)
     ctx.sub('spherical', spherical, prog, ctx)
     ctx.sub('angle', angle, prog, ctx)
+    ctx.rule('C16.g', 'dependency: Rotation_Matrix and the general-axis Spherical_Coordinates normalise the axis with Vector::Normalize / '
+             'Normalized; they inherit the obligations of C04 about those functions (every component divided by the Euclidean norm)', 2)
+    ctx.inherit('C04', lambda o: o.rule == 'C04.b' and o.instance in ('Vector::Normalize', 'Vector::Normalized', 'Vector::Norm'), 'C16.g', 'rotations about a general axis')
 
 
 def rot(prog, ctx):
